@@ -28,7 +28,7 @@ from fractions import Fraction
 from common import CORPUS, Check, call, import_repo, lst, rat, run_check, run_driver
 
 from c06 import (BOUND_SLACK, DYADIC_THRS, HALF, REFINE_TOL, TORCH_DTYPE, DTYPE_MIX, eff_abs_sum, float64_special,
-                 half_refine_probe, is_p1_raise, patch_of, patch_signatures, patch_size, thr_in_dtype, window_min)
+                 explain_bound_failure, half_refine_probe, is_p1_raise, patch_of, patch_size, thr_in_dtype)
 
 THEOREMS = [
     "SleapVerif.C07.global_attains_max",
@@ -271,8 +271,7 @@ def oracle_refined(np, a2, rough, refined, p, dtype="f32"):
     half = p / 2
     if refined[0] is None or refined[1] is None or not (abs(refined[0] - rough[0]) <= half + BOUND_SLACK[dtype]
                                                          and abs(refined[1] - rough[1]) <= half + BOUND_SLACK[dtype]):
-        P = patch_of(np, a2[None, None], 0, 0, int(rough[0]), int(rough[1]), p)
-        sigs = patch_signatures(P, window_min(a2, int(rough[0]), int(rough[1]), p))
+        sigs = explain_bound_failure(np, a2, int(rough[0]), int(rough[1]), p)
         hh, ww = a2.shape
         inb = 0 <= int(rough[1]) < hh and 0 <= int(rough[0]) < ww
         if inb and a2[int(rough[1]), int(rough[0])] != a2.max():
